@@ -382,7 +382,7 @@ void apply(Inst &in, CaseCtx &cx, int op, uint8_t a, uint8_t b, int K, size_t ma
         CHECK(cc.calls == n, "C15.slist.once", "clear made %zu callbacks for %zu elements", cc.calls, n);
         size_t sz;
         LIB(sz = cstl_slist_size(l));
-        CHECK(sz == 0, "C15.slist.empty", "size %zu after clear", sz);
+        CHECK(sz == 0, g_prop == "C15" ? "C15.slist.empty" : "C13.size", "size %zu after clear", sz);
         if (n >= 3) cx.nt_clear3 = true;
         break;
     }
